@@ -33,7 +33,7 @@ def endsDict (d : List Nat) : Bool := specEnds d && libEnds d
 def endsContent (d : List Nat) : Bool := specEnds d && ctEnds d
 
 /- FULL: for every byte string `n` that is valid UTF-8 (every Rust `String`), every object number
-   `i ≤ 9 999 999`, generation `g ≤ 65535` and operator `kw ∈ {Do, cs, CS, sh, gs}`:
+   `i ≤ 4 294 967 295` (every `u32`), generation `g ≤ 65535` and operator `kw ∈ {Do, cs, CS, sh, gs}`:
    (D) the resource dictionary `ser (.dict [(n, .ref i g)])` parses, by the independent reader and by
        the library's parser, to exactly `.dict [(n, .ref i g)]` (key = the user's name as a `String`);
    (C) the operator line `opName n kw` parses to exactly one operator `kw` whose operand is `n`:
@@ -107,7 +107,7 @@ example : NameBytes [120, 32, 54, 32, 48, 32, 82, 32, 47, 73, 110, 106, 0, 255] 
 /-- (D), the library's `PdfObject::parse`, all ASCII names (white space, delimiters, `#`, controls
     included) -/
 theorem C30_resource_dict_lib_partial (n rest : List Nat) (i g fuel : Nat) (hn : NameAscii n = true)
-    (hi : i ≤ 9999999) (hg : g ≤ 65535) (hr : libDictFollowOk rest = true) (hf : 7 ≤ fuel) :
+    (hi : i ≤ 4294967295) (hg : g ≤ 65535) (hr : libDictFollowOk rest = true) (hf : 7 ≤ fuel) :
     ObjParser.parseObj fuel (ser (.dict [(n, .ref i g)]) ++ rest) = .ok (.dict [(n, .ref i g)], rest) := by
   rw [ser_one_entry n _ (by simp [sortDicts])]
   have hs : SafeLib (.dict [(n, .ref i g)]) rest = true := by
